@@ -286,12 +286,18 @@ def derive_pattern(rng, src, tree):
         root = rng.choice(slotty)
         if isinstance(root, ast.stmt):
             roots, kind = [root], "stmts"
-            seg_start, seg_end = off.starts[root.lineno - 1], off.end(root)
+            seg_start, seg_end = stmt_seg_start(off, src, root), off.end(root)
         else:
             roots, kind = [root], "expr"
             seg_start, seg_end = off.start(root), off.end(root)
         run_leaves = [c for c in optional_children(root) if isinstance(c, ast.expr) and hasattr(c, "lineno")]
         return _finish_pattern(rng, src, off, roots, kind, seg_start, seg_end, run_leaves, "optional-slots")
+    midline = [st for lst in stmt_lists for st in lst
+               if not hasattr(st, "body") and src[off.starts[st.lineno - 1]:off.start(st)].strip()]
+    if midline and rng.random() < 0.10:
+        # a simple statement that follows another one on its line (`a = 0; b = 2`)
+        root = rng.choice(midline)
+        return _finish_pattern(rng, src, off, [root], "stmts", off.start(root), off.end(root), None, "midline-stmt")
     if stmt_lists and (not exprs or rng.random() < 0.38):
         runs = find_runs(stmt_lists)
         if runs and rng.random() < 0.55:
@@ -308,6 +314,8 @@ def derive_pattern(rng, src, tree):
         roots = lst[i:i + k]
         first_line = min([roots[0].lineno] + [d.lineno for d in getattr(roots[0], "decorator_list", [])])
         seg_start = off.starts[first_line - 1]
+        if first_line == roots[0].lineno:
+            seg_start = stmt_seg_start(off, src, roots[0])
         seg_end = off.end(roots[-1])
         kind = "stmts"
     else:
@@ -319,6 +327,12 @@ def derive_pattern(rng, src, tree):
         kind = "expr"
     return _finish_pattern(rng, src, off, roots, kind, seg_start, seg_end, run_leaves,
                            "run-window" if run_leaves is not None else kind)
+
+
+def stmt_seg_start(off, src, stmt):
+    """start of the line, unless another statement precedes on the line (`a = 0; b = 2`)"""
+    line_start = off.starts[stmt.lineno - 1]
+    return line_start if not src[line_start:off.start(stmt)].strip() else off.start(stmt)
 
 
 def is_slotty(n):
@@ -541,6 +555,8 @@ def needs_no_parens(b, text):
     """bound code that can (or must) be inserted as it is"""
     if isinstance(b, ast.Constant) and isinstance(b.value, (int, float, complex)) and not isinstance(b.value, bool):
         return False                      # 10.q is no attribute access
+    if "\n" in text and not isinstance(b, (ast.Starred, ast.Slice)) and not _has_slice(b):
+        return False                      # code spanning lines (adjacent string pieces) needs brackets of its own
     if isinstance(b, ATOMIC) or isinstance(b, (ast.Starred, ast.Slice)) or _has_slice(b):
         return True
     return isinstance(b, (ast.Tuple, ast.GeneratorExp)) and text.startswith("(") and text.endswith(")")
@@ -736,6 +752,10 @@ def run_case(rope, case):
             plain.append((True, list(m.ast_list), dict(m.mapping)))
         else:
             plain.append((False, [m.ast], dict(m.mapping)))
+    res["multi_piece"] = any(
+        isinstance(x, ast.Constant) and isinstance(x.value, str) and hasattr(x, "region")
+        and "\n" in src[x.region[0]:x.region[1]] and "#" in src[x.region[0]:x.region[1]]
+        for (_st, nodes, mp) in plain for top in list(nodes) + list(mp.values()) for x in ast.walk(top))
     res["oracle"] = oracle(src, case, tree, plain)
     res["tree"] = tree
     return res
@@ -887,6 +907,8 @@ def run_match_cases(ctx, cases):
             ctx.count("match:exact_wildcard")
         if any(len(set(v for k, v in mp)) < len(mp) for (_, _, mp) in r["obs"]):
             ctx.count("match:two_wildcards_same_node")
+        if r.get("multi_piece"):
+            ctx.count("match:bound_or_matched_multi_piece_string_with_comment")
         if r["oracle"]:
             ctx.violation(dict(replay, category=r["oracle"][0], observed=r["oracle"][1]),
                           "C19 matching: %s; pattern %r mode %s" % (r["oracle"][1], case["user"][:80], case["mode"]))
